@@ -141,9 +141,8 @@ fn verify_no_overlap_contiguous(
     spec_1: &SideMetadataSpec,
     spec_2: &SideMetadataSpec,
 ) -> Result<()> {
-    let base = crate::util::metadata::side_metadata::layout::global_side_metadata_base_address();
-    let end_1 = base + super::metadata_address_range_size(spec_1);
-    let end_2 = base + super::metadata_address_range_size(spec_2);
+    let end_1 = spec_1.get_starting_address() + super::metadata_address_range_size(spec_1);
+    let end_2 = spec_2.get_starting_address() + super::metadata_address_range_size(spec_2);
 
     if !(spec_1.get_starting_address() >= end_2 || spec_2.get_starting_address() >= end_1) {
         return Err(Error::new(
